@@ -103,6 +103,17 @@ func monitor(prop string, h *History, res *common.Result) {
 					return
 				}
 			}
+			// the same bound on what the server reports as live holds (granted or restored, not ended)
+			perName := map[string]int{}
+			for _, e := range holdsOfListing(v) {
+				perName[strings.SplitN(e, "/", 2)[0]]++
+			}
+			for nt, cnt := range perName {
+				if l, ok := v.Table[impl.UnTok(nt)]; ok && int64(cnt) > int64(l.Size) {
+					viol(res, prop, "seq:capacity:listed", fmt.Sprintf("lock %s of size %d has %d live holds in the server's listing: {%s}", nt, l.Size, cnt, strings.Join(holdsOfListing(v), " ")), h, i, nil)
+					return
+				}
+			}
 		case "C07":
 			failed := isRequest(s.Op.Kind) && s.Resp.Err != "-" && s.Resp.Err != ""
 			if failed && s.Before != nil {
